@@ -474,10 +474,10 @@ Example C13_size_concrete :
   link_sym line_ang c (reach_by (radius_probe line_ang 2) c [D; U]) M 1 0 = false /\
   Qeqb (linked_count line_ang (link_sym line_ang c (reach line_ang c [D; U]) M) 0 M D U) 15 = true /\
   Qeqb (linked_count line_ang (link_sym line_ang c (reach_by (radius_probe line_ang 2) c [D; U]) M) 0 M D U) 0 = true /\
-  c13_meta_case (17 # 10) [1 # 10; 17 # 10] 4 4 8 8 0 (17 # 10) = 0%nat /\
-  c13_meta_case (1 # 10) [1 # 10; 17 # 10] 4 4 8 8 0 (17 # 10) = 3%nat /\
-  c13_meta_case (17 # 10) [1 # 10; 17 # 10] 3 4 8 8 0 (17 # 10) = 4%nat /\
-  c13_meta_case (17 # 10) [1 # 10; 17 # 10] 4 4 8 8 (1 # 1000) (17 # 10) = 8%nat /\
+  c13_meta_case (17 # 10) [1 # 10; 17 # 10] 4 4 8 8 0 (1 # 1000000) = 0%nat /\
+  c13_meta_case (1 # 10) [1 # 10; 17 # 10] 4 4 8 8 0 (1 # 1000000) = 3%nat /\
+  c13_meta_case (17 # 10) [1 # 10; 17 # 10] 3 4 8 8 0 (1 # 1000000) = 4%nat /\
+  c13_meta_case (17 # 10) [1 # 10; 17 # 10] 4 4 8 8 (1 # 1000) (1 # 1000000) = 8%nat /\
   c13_links_case M [(4, 17 # 10, 1, true)] = 0%nat /\ c13_links_case M [(4, 17 # 10, 1, false)] = 2%nat /\
   c13_links_case M [(4, 1 # 10, 1, false)] = 3%nat.
 Proof. vm_compute. repeat split; reflexivity. Qed.
